@@ -264,6 +264,13 @@ def collect(run, pkg, p, recs, byid, stats, libword):
         elif t == "drift":
             s = byid.get(r.get("sid"))
             run.drift.append("%s on %s" % (r.get("what"), describe(s)))
+        elif t == "pviol" and r["sid"] == 0:       # not about a generated shape (C02: non-struct containers)
+            kinds = run.notes.setdefault("violating_observations_by_kind", {})
+            kinds[r["kind"]] = kinds.get(r["kind"], 0) + 1
+            if kinds[r["kind"]] <= 3:
+                # the fixed derivations run in every C02 package: any shape will do to replay them
+                run.violation({"kind": r["kind"]}, "%s: %s" % (r["kind"], r.get("detail", "")),
+                              {"property": run.pid, "static": r, "shape": next(iter(byid.values()))})
         elif t == "pviol":
             s = byid.get(r["sid"])
             sig = {"kind": r["kind"]}
@@ -355,7 +362,7 @@ def check_optics(run, shapes=None):
         run.traces += stats.get("scripts", 0)
     else:
         for k in ("derive-panic", "derive-ptr", "derive-lens", "ptr-class-accepted", "ptr-class-panicked", "through-pointer-lenses",
-                  "through-pointer-coincident", "foreign-calls"):
+                  "through-pointer-coincident", "foreign-calls", "container-derivations"):
             run.notes[k.replace("-", "_")] = stats.get(k, 0)
         run.traces += stats.get("foreign-calls", 0)
     # I level: which variant of the derivation does the tree follow?
